@@ -16,6 +16,11 @@ PROPS = {
             "Replicon.C12.C12_history_refines_new",
             "Replicon.C12.C12_contains",
             "Replicon.C12.C12_contains_any",
+            "Replicon.C12.C12_tracker_init",
+            "Replicon.C12.C12_tracker_refines",
+            "Replicon.C12.C12_tracker_confirm_result",
+            "Replicon.C12.C12_tracker_contains",
+            "Replicon.C12.C12_tracker_contains_any",
         ],
         "const_obligations": ["Consts.tickHalf = u32::MAX/2 (RepliconTick::cmp)", "Consts.historyBits (4 sites agree)", "Consts.historyInitMask"],
         "profiles": [{"name": "c12"}],
@@ -31,7 +36,7 @@ PROPS = {
         ],
         "assumptions": [
             "well-formedness premise of the property itself: ticks less than half the counter range apart (Near)",
-            "ServerMutateTicks is covered by model + differential + oracle on this run; its refinement theorem is listed separately once proved",
+            "ServerMutateTicks: the VecDeque pop_back/push_front loop is modelled by its closed form (MutateTicks.rotate); tied by the differential run",
             "end-to-end clause (MutateTickReceived fires once, only when every mutate message of the tick was applied) is part of the protocol trace validation, not of this leaf check",
         ],
     },
@@ -70,8 +75,9 @@ MANIFEST_TEXT = {
                 "Constants (window, half range, initial mask) are regenerated from the source on every run; the model is run against the real "
                 "types on ~34k generated sequences per quick run, with the set specification as oracle on the implementation's answers.",
         "design_ref": "DESIGN.md §7 C12, §4.1, §4.2",
-        "note": "ServerMutateTicks: exact model + differential + CountSpec oracle; refinement theorem in progress. End-to-end MutateTickReceived "
-                "clause belongs to the protocol trace validation. Trusted: Lean kernel, harness/driver, Rust shift semantics as modelled.",
+        "note": "ServerMutateTicks: C12_tracker_refines / _confirm_result / _contains / _contains_any (ring = confirmation log, for all call "
+                "sequences that respect the protocol). End-to-end MutateTickReceived clause belongs to the protocol trace validation. "
+                "Trusted: Lean kernel, harness/driver, Rust shift semantics and VecDeque rotation as modelled.",
         "technique": "Lean 4 proof (refinement of a plain-set spec, induction over the confirmation list, BitVec bit lemmas) + constants extraction + differential correspondence",
     },
     "C15": {
